@@ -253,3 +253,149 @@ pub fn check_no_panic(co: &mut CheckOut, prop: &str, out: &RunOut) {
         co.violate(prop, "task_panicked", format!("{}|task_panicked|site={}|{}", prop, file, view::short_site(&msg)), format!("task {} panicked at {}: {}", name, loc, msg));
     }
 }
+
+// ------------------------------------------------------------------------------------------
+// datagram storms (C07 / C08 / C09 / C20)
+// ------------------------------------------------------------------------------------------
+
+pub const LEN_CLASSES: [u32; 24] = [0, 1, 3, 4, 7, 8, 11, 12, 16, 100, 1020, 1023, 1024, 1025, 1028, 1200, 1499, 1500, 1501, 1504, 2000, 4096, 9000, 65_507];
+pub const WORDS: [u32; 22] = [0, 1, 2, 3, 4, 5, 7, 8, 64, 1000, 1020, 1024, 1028, 1500, 0x7fff_ffff, 0x8000_0000, 0xffff_fffc, 0xffff_ffff, 0x434e_4f4e, 0xff44_4150, 0x0052_4556, 0x8000_000c];
+
+pub fn valid_spec(rng: &mut Rng, ctr: &mut u64) -> ReqSpec {
+    *ctr = ctr.wrapping_add(1);
+    let proto = if rng.chance(1, 2) { P::Ietf } else { P::Classic };
+    let srv = if proto == P::Ietf && rng.chance(1, 3) { SrvMode::Correct } else { SrvMode::Absent };
+    ReqSpec::Valid { proto, size: 1024 + 4 * rng.below(120) as u16, nonce_seed: *ctr, srv, vers: vec![r::VER_DRAFT13] }
+}
+
+/// One datagram of an "interesting" kind; `ctr` keeps nonces unique.
+pub fn storm_spec(rng: &mut Rng, ctr: &mut u64) -> ReqSpec {
+    let base = valid_spec(rng, ctr);
+    let size = match &base {
+        ReqSpec::Valid { size, .. } => *size as u32,
+        _ => 1024,
+    };
+    match rng.below(12) {
+        0 => ReqSpec::Garbage { len: if rng.chance(2, 3) { *rng.pick(&LEN_CLASSES) } else { rng.below(3000) as u32 }, seed: rng.next_u64() },
+        1 | 2 => base,
+        3 => {
+            let n = *rng.pick(&[0u32, 4, 8, 12, 16, 512, 1000, 1020, 1023, size.saturating_sub(4), size.saturating_sub(1)]);
+            ReqSpec::Mutant { base: Box::new(base), muts: vec![Mutation::Truncate(n)] }
+        }
+        4 => {
+            let n = *rng.pick(&[1u32, 2, 3, 4, 8, 100, 1500u32.saturating_sub(size), 1501u32.saturating_sub(size), 1504u32.saturating_sub(size), 3000]);
+            ReqSpec::Mutant { base: Box::new(base), muts: vec![Mutation::Extend(n)] }
+        }
+        5 => {
+            // count / offset / tag words of the (possibly framed) header
+            let index = rng.below(12) as u32;
+            ReqSpec::Mutant { base: Box::new(base), muts: vec![Mutation::SetWord { index, value: *rng.pick(&WORDS) }] }
+        }
+        6 => {
+            let proto = if rng.chance(1, 2) { P::Ietf } else { P::Classic };
+            let nonce_len = 4 * rng.below(371) as u16; // 0..=1480
+            *ctr = ctr.wrapping_add(1);
+            ReqSpec::NonceLen { proto, size: 1024 + 4 * rng.below(120) as u16, nonce_len: if rng.chance(1, 4) { *rng.pick(&[0u16, 4, 8, 28, 36, 60, 68, 128, 1016, 1480]) } else { nonce_len }, nonce_seed: *ctr }
+        }
+        7 => {
+            *ctr = ctr.wrapping_add(1);
+            let b = ReqSpec::Valid { proto: P::Ietf, size: size as u16, nonce_seed: *ctr, srv: SrvMode::Absent, vers: vec![r::VER_DRAFT13] };
+            let m = if rng.chance(1, 2) { Mutation::FrameLenDelta(rng.below(17) as i32 - 8) } else { Mutation::FrameLen(*rng.pick(&[0u32, 1, 4, 1012, 1488, size, size - 12, size - 8, 0xffff_ffff, 0x8000_0000])) };
+            ReqSpec::Mutant { base: Box::new(b), muts: vec![m] }
+        }
+        8 => {
+            *ctr = ctr.wrapping_add(1);
+            let ver: Option<Vec<u8>> = match rng.below(5) {
+                0 => None,
+                1 => Some(vec![]),
+                2 => Some(vec![0x0c, 0, 0]),
+                3 => Some(r::VER_CLASSIC.to_le_bytes().to_vec()),
+                _ => Some([7u32.to_le_bytes(), r::VER_DRAFT13.to_le_bytes()].concat()),
+            };
+            let srv = match rng.below(5) {
+                0 => SrvMode::Correct,
+                1 => SrvMode::Other(rng.next_u64()),
+                2 => SrvMode::BitFlip(rng.below(256) as u16),
+                3 => SrvMode::Len(*rng.pick(&[0u16, 4, 28, 36, 64])),
+                _ => SrvMode::Absent,
+            };
+            ReqSpec::RawVer { size: size as u16, nonce_seed: *ctr, ver, srv }
+        }
+        9 => ReqSpec::Mutant { base: Box::new(base), muts: vec![Mutation::FlipBit(rng.below(8 * 64) as u32)] },
+        10 => ReqSpec::Mutant { base: Box::new(base), muts: vec![Mutation::Scribble { pos: rng.below(48) as u32, len: 1 + rng.below(16) as u32, seed: rng.next_u64() }] },
+        _ => ReqSpec::Mutant { base: Box::new(base), muts: vec![Mutation::FlipBit(rng.below(8 * size as u64) as u32), Mutation::FlipBit(rng.below(8 * size as u64) as u32)] },
+    }
+}
+
+pub const SENTINEL_SOCK: u32 = 9000;
+
+/// A storm of `n` datagrams from `sockets` sockets starting at `start_us`; returns the end time.
+pub fn storm(rng: &mut Rng, plan: &mut Plan, n: u32, sockets: u32, start_us: u64) -> u64 {
+    let mut t = start_us;
+    let mut ctr = plan.seed.wrapping_mul(31337) ^ 0x5707;
+    for _ in 0..n {
+        let spec = storm_spec(rng, &mut ctr);
+        plan.step(t, Action::Send { sock: rng.below(sockets as u64) as u32, req: spec });
+        t += *rng.pick(&[0u64, 0, 0, 1, 3, 20, 150, 3000]);
+    }
+    t
+}
+
+/// `k` valid sentinel requests (alternating protocols) from a dedicated socket, spaced 20 ms.
+pub fn sentinels(plan: &mut Plan, k: u32, start_us: u64) -> u64 {
+    let mut t = start_us;
+    for i in 0..k {
+        let proto = if i % 2 == 0 { P::Classic } else { P::Ietf };
+        let req = ReqSpec::Valid { proto, size: 1024, nonce_seed: plan.seed ^ (0x5e17 + i as u64), srv: SrvMode::Absent, vers: vec![r::VER_DRAFT13] };
+        plan.step(t, Action::Send { sock: SENTINEL_SOCK + i, req });
+        t += 20_000;
+    }
+    t
+}
+
+/// Exactly-once / right-recipient oracle over the recorded history (C09, C18).
+/// `relax_send_faults`: a request whose only send attempt failed is not "missing".
+pub fn check_exactly_once(co: &mut CheckOut, prop: &str, v: &View, out: &RunOut, demand_liveness: bool) {
+    for rcv in &v.recvs {
+        let n = rcv.answers.len();
+        match &rcv.class {
+            Ok(info) => match info.must {
+                r::Must::Answer => {
+                    if n == 0 && demand_liveness {
+                        co.violate(prop, "missing_response", format!("{}|missing_response|proto={}", prop, info.proto.name()), format!("valid {} request #{} (seq {}) from {} received by a worker but never answered", info.proto.name(), rcv.dgram, rcv.seq, rcv.src));
+                    }
+                    if n > 1 {
+                        co.violate(prop, "duplicate_response", format!("{}|duplicate_response", prop), format!("request #{} from {} answered {} times", rcv.dgram, rcv.src, n));
+                    }
+                }
+                r::Must::Either(_) => {
+                    if n > 1 {
+                        co.violate(prop, "duplicate_response", format!("{}|duplicate_response", prop), format!("request #{} from {} answered {} times", rcv.dgram, rcv.src, n));
+                    }
+                }
+                r::Must::Silent(_) => {}
+            },
+            Err(why) => {
+                if n > 0 {
+                    co.violate(prop, "answered_illformed", format!("{}|answered_illformed|{}", prop, why), format!("datagram #{} ({} bytes, {}) from {} was answered", rcv.dgram, rcv.data.len(), why, rcv.src));
+                }
+            }
+        }
+    }
+    // batches never mix protocols
+    for b in &v.batches {
+        let protos: std::collections::BTreeSet<_> = b.sends.iter().map(|&s| view::response_proto(&v.sends[s].data)).collect();
+        if protos.len() > 1 {
+            co.violate(prop, "cross_protocol_batch", format!("{}|cross_protocol_batch", prop), "one signed batch carries both classic and IETF responses".to_string());
+        }
+    }
+    if demand_liveness {
+        // nothing may be left undelivered or unread at a live worker socket
+        let w = &out.world;
+        for s in &w.socks {
+            if w.procs[s.proc].sut && !s.closed && s.queue.iter().any(|d| !d.phantom) {
+                co.violate(prop, "missing_response", format!("{}|stranded_in_queue", prop), format!("{} datagram(s) still unread in worker socket {} at the end of the run (no wake-up)", s.queue.len(), s.id));
+            }
+        }
+    }
+}
